@@ -204,29 +204,63 @@ func runC24(c *core.Ctx) {
 				signed = core.ResultOf(call, 0)
 			}
 		}
-		verifies := core.CallsIn(vs, func(in ssa.Instruction, cc *ssa.CallCommon) bool { return isInvoke(cc, "Verify") })
-		for i, v := range verifies {
-			cc := core.CallOf(v)
-			name := fmt.Sprintf("verifySig/Verify#%d", i)
-			msgOK := signed != nil && core.BackwardReach(cc.Args[1])[signed]
-			sigOK := core.ExprKey(cc.Args[2]) == "p1.Signature"
-			keyOK := false
-			for x := range core.BackwardReach(cc.Args[0]) {
-				if core.ExprKey(x) == "p1.SndAddr" {
-					keyOK = true
+		// the verdict may be delegated to a helper of the package (`return inTx.verifyOverHash(key, bytes, sig)`):
+		// the helper's Verify calls are judged with its parameters standing for the arguments it was handed
+		type argTests struct{ msg, sig, key func(v ssa.Value) bool }
+		var verdicts func(fn *ssa.Function, prefix string, t argTests, depth int)
+		verdicts = func(fn *ssa.Function, prefix string, t argTests, depth int) {
+			verifies := core.CallsIn(fn, func(in ssa.Instruction, cc *ssa.CallCommon) bool { return isInvoke(cc, "Verify") })
+			for i, v := range verifies {
+				cc := core.CallOf(v)
+				name := fmt.Sprintf("%s/Verify#%d", prefix, i)
+				msgOK, sigOK, keyOK := t.msg(cc.Args[1]), t.sig(cc.Args[2]), t.key(cc.Args[0])
+				c.Check(msgOK && sigOK && keyOK, "C24/signed-bytes-are-the-dto", name, v.Pos(), "Verify(key of tx.SndAddr, GetDataForSigning(tx) [or its hash], tx.Signature)",
+					fmt.Sprintf("the signer is not given the transaction's own signing bytes/signature/sender key (message ok=%v, signature ok=%v, key ok=%v)", msgOK, sigOK, keyOK))
+			}
+			// success only as the result of Verify
+			for _, r := range core.Returns(fn) {
+				if !core.SuccessReturn(r, nil) {
+					continue
 				}
+				call, ok := core.RetErrOperand(r).(*ssa.Call)
+				name := prefix + "/success-is-verify@" + fmt.Sprint(r.Block().Index)
+				if ok && !isInvoke(&call.Call, "Verify") && depth < 2 {
+					if h := call.Call.StaticCallee(); h != nil && h.Blocks != nil && h.Pkg == fn.Pkg && h != fn {
+						args := call.Call.Args
+						through := func(test func(ssa.Value) bool, exact bool) func(v ssa.Value) bool {
+							return func(v ssa.Value) bool {
+								for i, p := range h.Params {
+									if i >= len(args) || !test(args[i]) {
+										continue
+									}
+									if ssa.Value(p) == v || (!exact && core.BackwardReach(v)[p]) {
+										return true
+									}
+								}
+								return false
+							}
+						}
+						c.Analysed(fname(h))
+						verdicts(h, prefix+"/"+h.Name(), argTests{through(t.msg, false), through(t.sig, true), through(t.key, false)}, depth+1)
+						c.Pass("C24/signed-bytes-are-the-dto", name, r.Pos(), "success is the verdict of "+h.Name()+", judged in its own right")
+						continue
+					}
+				}
+				c.Check(ok && isInvoke(&call.Call, "Verify"), "C24/signed-bytes-are-the-dto", name, r.Pos(), "success is the signer's verdict", "verifySig can succeed without the signer's verdict")
 			}
-			c.Check(msgOK && sigOK && keyOK, "C24/signed-bytes-are-the-dto", name, v.Pos(), "Verify(key of tx.SndAddr, GetDataForSigning(tx) [or its hash], tx.Signature)",
-				fmt.Sprintf("the signer is not given the transaction's own signing bytes/signature/sender key (message ok=%v, signature ok=%v, key ok=%v)", msgOK, sigOK, keyOK))
 		}
-		// success only as the result of Verify
-		for _, r := range core.Returns(vs) {
-			if !core.SuccessReturn(r, nil) {
-				continue
-			}
-			call, ok := core.RetErrOperand(r).(*ssa.Call)
-			c.Check(ok && isInvoke(&call.Call, "Verify"), "C24/signed-bytes-are-the-dto", "verifySig/success-is-verify@"+fmt.Sprint(r.Block().Index), r.Pos(), "success is the signer's verdict", "verifySig can succeed without the signer's verdict")
-		}
+		verdicts(vs, "verifySig", argTests{
+			msg: func(v ssa.Value) bool { return signed != nil && core.BackwardReach(v)[signed] },
+			sig: func(v ssa.Value) bool { return core.ExprKey(v) == "p1.Signature" },
+			key: func(v ssa.Value) bool {
+				for x := range core.BackwardReach(v) {
+					if core.ExprKey(x) == "p1.SndAddr" {
+						return true
+					}
+				}
+				return false
+			},
+		}, 0)
 		c.Floor("C24/signed-bytes-are-the-dto", 4)
 	}
 }
